@@ -217,6 +217,7 @@ namespace pika::threads::detail {
                     data.initial_state == threads::detail::thread_schedule_state::pending;
 
                 threads::detail::thread_id_ref_type thrd;
+                PIKA_VERIF_POST("newq.pop", nullptr, 1, 0);
                 create_thread_object(thrd, data, lk);
 
                 task->~task_description();
@@ -689,7 +690,9 @@ namespace pika::threads::detail {
             new (td) task_description{std::move(data)};    //-V106
 #endif
             PIKA_VERIF_POST("place.stage", td, reinterpret_cast<std::uintptr_t>(this), 0);
+            PIKA_VERIF_PRE("newq.push", nullptr);
             new_tasks_.push(td);
+            PIKA_VERIF_POST("newq.push", nullptr, 1, 0);
             if (&ec != &throws) ec = make_success_code();
         }
 
@@ -1116,6 +1119,7 @@ namespace pika::threads::detail {
                     threads::detail::thread_data_stackful::create(init_data, this,
                         parameters_.small_stacksize_, threads::detail::thread_id_addref::no);
                 PIKA_ASSERT(p);
+                PIKA_VERIF_POST("heap.pool", p, 0, 0);
 
                 // We initialize the stack eagerly
                 p->init();
